@@ -72,6 +72,13 @@ CLAIMS = {
               "the same members, without any type, and evaluated with Eval: all variants that compile and succeed must "
               "return ObsEq values.",
               "DESIGN.md section 6 C15", "TLC-enumerated programs x inputs; differential real runs across type information"),
+    "C17": _c("model_checking",
+              "Types!Overload states which occurrences of `+` become the call Add(l, r) (both operands statically int, by "
+              "Types!TypeOf, which TLC checks against the generator's typing in every state); for every TLC-enumerated "
+              "expression x assignment the real library compiled with Operator(+, Add) must reproduce value, failure and "
+              "the call log of the rewritten tree - so each overloaded occurrence calls Add once with its operands in order "
+              "wherever it sits, and every other occurrence keeps its built-in meaning; ill-shaped mappings must be rejected.",
+              "DESIGN.md section 6 C17", "TLA+ overload rewrite; TLC-enumerated cases replayed with a real operator mapping"),
     "C18": _c("model_checking",
               "The identities are stated in TLA+ (LawPairs) over the reference semantics and checked by TLC in every state "
               "(LawsHold); both sides of each instance (closures nested to depth 2/3) are compiled and run for real on "
